@@ -45,7 +45,7 @@ fn main() {
         },
         _ => usage(),
     };
-    let code = match args[1].as_str() {
+    let code = match infra::guard(|| match args[1].as_str() {
         "C01" => checks::c01::run(tier),
         "C12" => checks::c12::run(tier),
         "C06" => checks::c06::run(tier),
@@ -74,6 +74,13 @@ fn main() {
             0
         }
         _ => usage(),
+    }) {
+        Ok(c) => c,
+        Err(p) => {
+            // a panic of the harness itself (panics of the subject are caught where they are called)
+            println!("machinery: the harness panicked: {p}");
+            2
+        }
     };
     std::process::exit(code);
 }
